@@ -376,7 +376,57 @@ def build_harness(ctx, name, harness_c, repo_srcs, cpu=None, extra=(), ldflags=(
         if r.returncode > 0 and r.stderr.strip():
             break               # a real compiler diagnostic
         time.sleep(2 + 3 * attempt)     # the compiler was killed (signal, out of memory on a loaded machine): not the code's fault, try again
+    if r.returncode > 0 and "undefined reference to" in r.stderr:
+        # the code under test now calls a library function that is not in this component's source list (a new dependency is
+        # not a defect): link against an archive of all the other library sources, built once per configuration
+        lib = _fallback_archive(ctx, name, cmd, repo_srcs)
+        if lib:
+            r2 = run(cmd[:-len(ldflags) or None] + [lib] + list(ldflags) if ldflags else cmd + [lib])
+            if r2.returncode == 0:
+                return out, ""
     return None, "gcc exit=%d\n%s" % (r.returncode, r.stderr[-4000:])
+
+
+def _fallback_archive(ctx, name, cmd, repo_srcs):
+    """ar archive of every library source file that is not already on the command line, compiled with the same flags"""
+    import concurrent.futures as cf
+    # flags = everything on the command line that is not a source file, the output, or a library
+    flags = []
+    skip = False
+    for a in cmd[1:]:
+        if skip:
+            skip = False
+            continue
+        if a == "-o":
+            skip = True
+            continue
+        if a.endswith(".c") or a.startswith("-l") or a.startswith("-Wl,"):
+            continue
+        flags.append(a)
+    d = os.path.join(ctx.tmp, "fallback-" + hashlib.sha1(" ".join(flags).encode()).hexdigest()[:12])
+    lib = os.path.join(d, "liball.a")
+    if os.path.exists(lib):
+        return lib
+    os.makedirs(d, exist_ok=True)
+    have = {os.path.realpath(os.path.join(REPO, x)) for x in repo_srcs}
+    srcs = []
+    for sub in REPO_DIRS:
+        dd = os.path.join(REPO, sub)
+        if os.path.isdir(dd):
+            for fn in sorted(os.listdir(dd)):
+                if fn.endswith(".c") and os.path.realpath(os.path.join(dd, fn)) not in have:
+                    srcs.append(os.path.join(dd, fn))
+
+    def cc(src):
+        o = os.path.join(d, src[len(REPO):].strip("/").replace("/", "_")[:-2] + ".o")
+        r = run(["gcc"] + flags + ["-c", src, "-o", o])
+        return o if r.returncode == 0 else None
+    with cf.ThreadPoolExecutor(max_workers=NCPU) as ex:
+        objs = [o for o in ex.map(cc, srcs) if o]
+    if not objs:
+        return None
+    r = run(["ar", "rcs", lib] + objs)
+    return lib if r.returncode == 0 else None
 
 
 ASAN_ENV = {"ASAN_OPTIONS": "detect_leaks=1:abort_on_error=0:exitcode=99:allocator_may_return_null=1",
